@@ -1,9 +1,10 @@
 CONSTANTS
-  Handles = {1, 2}
+  Handles = {1}
   Iters = {1}
   Writers = {1}
   Paths = {1, 2, 3, 4, 5}
   N = 100000
+  Ranges <- SmallRanges
 INIT MCInit
 NEXT MCNext
 VIEW pvars
